@@ -521,31 +521,39 @@ A64_LOADS = [("ldr x7, [x1, #8]", "x1"), ("ldr x7, [x2, #8]", "x2"), ("ldr x7, [
              ("ldr x1, [x1, #8]", "x1"), ("ldr x2, [x2, #8]", "x2")]
 
 
+def _seq2_impl(which, k0, k1, i0, i1, d1, d2, ld):
+    # (no contract on this helper: CrossHair enforces the contracts of called functions, which would turn the
+    # vacuity twin's False into an aborted path)
+    if skip({"k0": k0, "k1": k1, "i0": i0, "i1": i1, "d1": d1, "d2": d2, "ld": ld}):
+        return True
+    lo, hi = shard(100)
+    if not (lo <= k0 * 10 + k1 < hi):
+        return True
+    if which == "x86":
+        ok, expect, seq, line = _seq("x86", X86_SEQ, "movq %rsi, 8(%rax)", X86_LOADS, "rax", [pick(k0, 10), pick(k1, 10)], [i0, i1], d1, d2, pick(ld, 5))
+    else:
+        ok, expect, seq, line = _seq("aarch64", A64_SEQ, "str x5, [x1, #8]", A64_LOADS, "x1", [pick(k0, 10), pick(k1, 10)], [i0, i1], d1, d2, pick(ld, 5))
+    return verdict(ok, nontrivial=expect, sample=lambda: {"between": seq, "imm": [i0, i1], "d1": d1, "d2": d2, "load": line, "dep": expect})
+
+
+QUICK_MENU_A64 = (0, 1, 3, 4, 6, 7, 8, 9)   # AArch64: without 'sub' and the copy back into the base; 'add xd, xn, #imm' (copy + bump) stays
 QUICK_MENU = (0, 1, 3, 4, 5, 6, 8, 9)       # quick tier: without 'sub' and 'inc' (their arithmetic is covered by the single-bump cells)
 
 
-def x86_seq2q(k0: int, k1: int, i0: int, i1: int, d1: int, d2: int, ld: int) -> bool:
+def x86_seq2q(q0: int, q1: int, i0: int, i1: int, d1: int, d2: int, l: int) -> bool:
     """
-    pre: 0 <= k0 < 10 and 0 <= k1 < 10 and 0 <= ld < 5
+    pre: 0 <= q0 < 8 and 0 <= q1 < 8 and 0 <= l < 4
     post: _
     """
-    if skip(locals()):
-        return True
-    if all(k0 != q for q in QUICK_MENU) or all(k1 != q for q in QUICK_MENU) or ld == 1:
-        return True
-    return x86_seq2(k0, k1, i0, i1, d1, d2, ld)
+    return _seq2_impl("x86", QUICK_MENU[pick(q0, 8)], QUICK_MENU[pick(q1, 8)], i0, i1, d1, d2, (0, 2, 3, 4)[pick(l, 4)])
 
 
-def a64_seq2q(k0: int, k1: int, i0: int, i1: int, d1: int, d2: int, ld: int) -> bool:
+def a64_seq2q(q0: int, q1: int, i0: int, i1: int, d1: int, d2: int, l: int) -> bool:
     """
-    pre: 0 <= k0 < 10 and 0 <= k1 < 10 and 0 <= ld < 5
+    pre: 0 <= q0 < 8 and 0 <= q1 < 8 and 0 <= l < 4
     post: _
     """
-    if skip(locals()):
-        return True
-    if all(k0 != q for q in QUICK_MENU) or all(k1 != q for q in QUICK_MENU) or ld == 1:
-        return True
-    return a64_seq2(k0, k1, i0, i1, d1, d2, ld)
+    return _seq2_impl("a64", QUICK_MENU_A64[pick(q0, 8)], QUICK_MENU_A64[pick(q1, 8)], i0, i1, d1, d2, (0, 2, 3, 4)[pick(l, 4)])
 
 
 def x86_seq2(k0: int, k1: int, i0: int, i1: int, d1: int, d2: int, ld: int) -> bool:
@@ -607,7 +615,7 @@ def a64_seq3(k0: int, k1: int, k2: int, i0: int, i1: int, i2: int, d1: int, d2: 
 _B = "displacements and immediates: unbounded symbolic ints; "
 CELLS = {
     "x86_seq2q": {"fn": x86_seq2q, "tiers": ("quick",), "bound": _B + "as x86_seq2 with 8 of the 10 menu entries (without sub / inc) and 4 of the 5 loads", "budget": {"quick": 170}, "shards": 20},
-    "a64_seq2q": {"fn": a64_seq2q, "tiers": ("quick",), "bound": _B + "as a64_seq2 with 8 of the 10 menu entries and 4 of the 5 loads", "budget": {"quick": 170}, "shards": 20},
+    "a64_seq2q": {"fn": a64_seq2q, "tiers": ("quick",), "bound": _B + "as a64_seq2 with 8 of the 10 menu entries (without sub / the copy back into the base) and 4 of the 5 loads", "budget": {"quick": 170}, "shards": 20},
     "x86_seq2": {"fn": x86_seq2, "tiers": ("thorough",), "bound": _B + "store d1(%rax); TWO instructions from a menu of 10 (add/sub $imm on the base, copies rax->rcx->rdx->rax, add/inc on a copy, copy from a foreign register, untrackable load into a copy); load d2 through rax, rcx or rdx, also loads that overwrite their own base (pointer chasing); oracle: abstract interpretation (origin register, constant)", "budget": {"quick": 170, "thorough": 600}, "shards": 20},
     "a64_seq2": {"fn": a64_seq2, "tiers": ("thorough",), "bound": _B + "same on AArch64 (add/sub #imm, mov copies, add xd, xn, #imm as copy+bump)", "budget": {"quick": 170, "thorough": 600}, "shards": 20},
     "x86_seq3": {"fn": x86_seq3, "tiers": ("thorough",), "bound": _B + "THREE instructions from the menu between store and load", "budget": {"thorough": 1500}, "shards": 50},
